@@ -293,6 +293,48 @@ pub fn program_case(t: &Tables, sh: Shape) -> BoxedStrategy<VmCase> {
         .boxed()
 }
 
+/// "Retry" cases: an instruction that can fail for the *values* it meets (integer overflow) is met again at the
+/// same stack depths after the values were rearranged or changed - a failure is a property of that one step,
+/// nothing about it may be remembered.
+pub fn retry_case(t: &Tables) -> BoxedStrategy<VmCase> {
+    use crate::model::vm::{Common, IntOp};
+    let ops = t.all_ops();
+    let faulting = vec![IntOp::Inc, IntOp::Dec, IntOp::Add, IntOp::Subtract, IntOp::Multiply, IntOp::Power, IntOp::Square, IntOp::ProtectedDivide, IntOp::Mod];
+    let keeping = vec![IntOp::C(Common::Swap), IntOp::Negate, IntOp::Abs, IntOp::Inc, IntOp::Dec, IntOp::Square];
+    let edge = || prop_oneof![3 => select(INT_EDGES.to_vec()), 2 => -3i64..=3, 1 => select(vec![2i64, 100, 62, 63, 64, 3_037_000_500, -3_037_000_500, 1 << 31, 1 << 32])];
+    (
+        select(faulting),
+        prop::collection::vec(prop_oneof![3 => select(keeping).prop_map(Ins::Int), 1 => leaf(ops.clone())], 1..4),
+        prop::collection::vec(edge(), 1..5),
+        prop::collection::vec(leaf(ops).prop_map(Prog::I), 0..3),
+        1usize..4,
+    )
+        .prop_map(|(op, mid, int, tail, repeats)| {
+            let mut exec = vec![Prog::I(Ins::Int(op))];
+            for _ in 0..repeats {
+                exec.extend(mid.iter().cloned().map(Prog::I));
+                exec.push(Prog::I(Ins::Int(op)));
+            }
+            exec.extend(tail);
+            let mut c = VmCase {
+                instr: None,
+                max_exec: exec.len() + 20,
+                max_int: int.len() + 20,
+                max_float: 20,
+                max_bool: 20,
+                exec,
+                int,
+                float: vec![],
+                boolean: vec![],
+                inputs: vec![Lit::Int(1), Lit::Int(i64::MAX), Lit::Bool(true), Lit::Float(F::of(0.5))],
+                steps: 60,
+            };
+            c.normalise();
+            c
+        })
+        .boxed()
+}
+
 /// "Churn" cases: one typed stack with a small maximum is filled, emptied (Flush / Pop / a consumer) and
 /// refilled up to and beyond its maximum, interleaved with instructions that push onto it from another
 /// stack.  Whatever a stack or the state remembers about its own fill level has to survive that.
